@@ -13,7 +13,13 @@ RULE = ("bin tables of 1..5 chromosomes with 0..12 genes of 1..10 bins, other bi
         "index labels; ops by_gene (default and custom ignore lists), do_genemetrics (+- segments cutting genes, "
         "thresholds incl. exact dyadic ties, min_probes 0..5, skip_low with -20/-15/depth 0 bins, haploid-X x "
         "female/male/guessed), squash_genes (mean/median/default summary, squash_antitarget), do_breaks; plus a "
-        "malformed stream (interleaved genes, comma-joined names, zero weights). non-trivial = hypothesis holds and "
+        "malformed stream (interleaved genes, comma-joined names, zero weights). About 35% of the well-formed "
+        "genemetrics / breaks cases (15-20% of all cases) run through the command line: the 6-digit bin table is "
+        "written as .cnr (+ .cns), `cnvkit.py genemetrics|gainloss [-s] [-t] [-m] [--drop-low-coverage] [-y] [-x SEX] "
+        "[statistics options] -o` or `cnvkit.py breaks [-m] -o` is run in-process (short and long option "
+        "spellings, all sex synonyms, -t/-m left implicit when they equal the parser defaults 0.2 / 3 / 1), the "
+        "model gets the tables as re-read from the files, the result is the table handed to write_dataframe and the "
+        "written file must read back equal to it within 1e-5. non-trivial = hypothesis holds and "
         "the table has >= 1 named gene; distinct by hash")
 EXHAUSTIVE = {"quick": False, "thorough": False}
 ASSUMPTIONS = ["bins sorted, non-overlapping, positive length inside each chromosome, rows of a chromosome adjacent; "
@@ -201,6 +207,41 @@ def _segments(rng, rows, thr):
 
 
 THRS = [0.2, 0.2, 0.2, 0.0, 0.5, 0.25, 1.0, 0.125]
+CLI_SHARE = 0.35  # of the well-formed genemetrics / breaks cases
+SEX_WORDS = {True: ["f", "x", "female", "Female"], False: ["m", "y", "male", "Male"]}
+STAT_OPTS = ["--mean", "--median", "--mode", "--ttest", "--stdev", "--sem", "--mad", "--mse", "--iqr", "--bivar",
+             "--ci", "--pi"]
+
+
+def _r6(q):
+    """the number a file written with %.6g carries (tabio.write / write_dataframe)"""
+    return frac(float("%.6g" % float(Fraction(q))))
+
+
+def _to_cli(rng, op, inp):
+    """turn a generated genemetrics / breaks case into a command-line case: what a .cnr / .cns can carry
+    (default row labels, 6 significant digits) and the spelling of the options"""
+    rows = inp["rows"]
+    for k, r in enumerate(rows):
+        r[0] = k
+        r[5], r[6], r[7] = _r6(r[5]), _r6(r[6]), _r6(r[7])
+    for s in inp.get("segs") or []:
+        s[4] = _r6(s[4])
+        if s[6] is not None:
+            s[6] = _r6(s[6])
+    opts = {"long": rng.random() < 0.5, "omit_defaults": rng.random() < 0.7}
+    if op == "genemetrics":
+        if rng.random() < 0.25:
+            inp["min_probes"] = 3  # the parser's default, left implicit when omit_defaults
+        opts["cmd"] = "gainloss" if rng.random() < 0.1 else "genemetrics"
+        opts["sex"] = None if inp["female"] is None else rng.choice(SEX_WORDS[inp["female"]])
+        opts["hapx_opt"] = rng.choice(["-y", "--male-reference", "--haploid-x-reference"])
+        # the statistics options are parsed but not used by genemetrics: they must not change the table
+        opts["stats"] = rng.sample(STAT_OPTS, rng.randint(1, 4)) if rng.random() < 0.3 else []
+        if opts["stats"] and rng.random() < 0.5:
+            opts["stats"] += rng.choice([["-a", "0.1"], ["--alpha", "0.01"], ["-b", "50"], ["--bootstrap", "10"]])
+    inp["cli"] = True
+    inp["cli_opts"] = opts
 
 
 def _case(rng, op, malformed=False, small=False):
@@ -239,6 +280,10 @@ def _case(rng, op, malformed=False, small=False):
         tag += "-" + inp["summary"]
     elif op == "breaks":
         inp.update(segs=_segments(rng, rows, 0.2), min_probes=rng.choice([1, 1, 2, 3, 4]))
+    if (op in ("genemetrics", "breaks") and not malformed and not PREFIX and rng.random() < CLI_SHARE
+            and (op == "genemetrics" or inp["segs"])):
+        _to_cli(rng, op, inp)
+        tag = "cli-" + tag
     if PREFIX:
         inp["prefix"] = True
     return {"op": op, "tag": tag, "in": inp}
@@ -343,10 +388,155 @@ def _opt(v):
     return None if math.isnan(v) else frac(v)
 
 
+def _gm_rows(tab):
+    rows = []
+    for k in range(len(tab)):
+        r = tab.iloc[k]
+        rows.append([str(r["gene"]), str(r["chromosome"]), int(r["start"]), int(r["end"]), _opt(r["log2"]),
+                     frac(float(r["depth"])), frac(float(r["weight"])), int(r["probes"]),
+                     _opt(r["segment_weight"]) if "segment_weight" in tab.columns else None,
+                     int(r["segment_probes"]) if "segment_probes" in tab.columns else None])
+    return rows
+
+
+def _break_rows(tab):
+    return [[str(r.gene), str(r.chromosome), int(r.location), frac(float(r.change)), int(r.probes_left),
+             int(r.probes_right)] for r in tab.itertuples(index=False)]
+
+
+def _reread(path, intended, kind):
+    """the table the command will read from `path` (read_cna sorts and renumbers), as model input rows; it must
+    be the intended table up to the order of chromosomes and the last bit of a parsed decimal"""
+    from cnvlib.cmdutil import read_cna
+
+    arr = read_cna(path)
+    d = arr.data
+    out = []
+    for k in range(len(d)):
+        base = [str(d["chromosome"].iat[k]), int(d["start"].iat[k]), int(d["end"].iat[k]), str(d["gene"].iat[k]),
+                frac(float(d["log2"].iat[k]))]
+        if kind == "bins":
+            out.append([int(d.index[k])] + base + [frac(float(d["depth"].iat[k])), frac(float(d["weight"].iat[k]))])
+        else:
+            out.append(base + [int(d["probes"].iat[k]) if "probes" in d.columns else None,
+                               frac(float(d["weight"].iat[k])) if "weight" in d.columns else None])
+    off = 1 if kind == "bins" else 0
+    want = {tuple(r[off:off + 3]): r[off + 3:] for r in intended}
+    got = {tuple(r[off:off + 3]): r[off + 3:] for r in out}
+
+    def same(a, b):  # position 0 is the gene name; the others are numbers (exact rational strings, ints) or None
+        if a is None or b is None:
+            return a is None and b is None
+        a, b = Fraction(a), Fraction(b)
+        return abs(a - b) <= Fraction(1, 10 ** 12) * max(abs(a), abs(b))
+    if len(out) != len(intended) or set(want) != set(got) or any(
+            len(want[k]) != len(got[k]) or want[k][0] != got[k][0]
+            or not all(same(a, b) for a, b in zip(want[k][1:], got[k][1:])) for k in want):
+        raise AssertionError(f"the written {kind} table does not read back as written")
+    return arr, out
+
+
+def _check_written(path, table):
+    """the file the command wrote reads back as the table it handed to the writer (6 significant digits)"""
+    import pandas as pd
+
+    back = pd.read_csv(path, sep="\t", converters={"gene": str, "chromosome": str})
+    if [str(c) for c in back.columns] != [str(c) for c in table.columns] or len(back) != len(table):
+        raise AssertionError("the written table has other columns / rows than the table computed")
+    for col in table.columns:
+        for a, b in zip(back[col].tolist(), table[col].tolist()):
+            if isinstance(b, str):
+                ok = str(a) == b
+            else:
+                a, b = float(a), float(b)
+                ok = (math.isnan(a) and math.isnan(b)) or abs(a - b) <= 1e-5 * abs(b)
+            if not ok:
+                raise AssertionError(f"the written table does not read back as computed (column {col}: {a!r} vs {b!r})")
+
+
+def _run_cli(case):
+    """the same computation through `cnvkit.py genemetrics` / `cnvkit.py breaks` (argument parser, file readers,
+    _cmd_* glue, writer), in-process"""
+    import logging
+    import shutil
+    import tempfile
+    from cnvlib import commands
+    from skgenome import tabio
+
+    i, op = case["in"], case["op"]
+    o = i.get("cli_opts") or {}
+    lng = bool(o.get("long"))
+    omit = bool(o.get("omit_defaults"))
+    quiet = logging.root.manager.disable  # the harness workers run with logging disabled: restore, do not enable
+    d = tempfile.mkdtemp(dir="/var/tmp", prefix="c16cli")
+    try:
+        fr, fs, fo = (os.path.join(d, n) for n in ("S.cnr", "S.cns", "S.out.tsv"))
+        logging.disable(logging.CRITICAL)
+        try:
+            tabio.write(_cna(i["rows"]), fr)
+            if i.get("segs"):
+                tabio.write(_segarr(i["segs"]), fs)
+        finally:
+            logging.disable(quiet)
+        arr, rows = _reread(fr, i["rows"], "bins")
+        segs = _reread(fs, i["segs"], "segments")[1] if i.get("segs") else None
+        if op == "genemetrics":
+            argv = [o.get("cmd") or "genemetrics", fr]
+            if segs is not None:
+                argv += ["--segment" if lng else "-s", fs]
+            if not (omit and i["thr_f"] == 0.2):
+                argv += ["--threshold" if lng else "-t", repr(float(i["thr_f"]))]
+            if not (omit and i["min_probes"] == 3):
+                argv += ["--min-probes" if lng else "-m", str(i["min_probes"])]
+            if i["skip_low"]:
+                argv += ["--drop-low-coverage"]
+            if i["hapx"]:
+                argv += [o.get("hapx_opt") or "-y"]
+            if i["female"] is not None:
+                argv += ["--sample-sex" if lng else "-x", o.get("sex") or ("female" if i["female"] else "male")]
+            argv += list(o.get("stats") or [])
+        else:
+            argv = ["breaks", fr, fs]
+            if not (omit and i["min_probes"] == 1):
+                argv += ["--min-probes" if lng else "-m", str(i["min_probes"])]
+        argv += ["--output" if lng else "-o", fo]
+        captured = []
+        real = commands.write_dataframe
+
+        def proxy(outfname, dframe, *a, **k):
+            captured.append((outfname, dframe))
+            return real(outfname, dframe, *a, **k)
+        commands.write_dataframe = proxy
+        logging.disable(logging.CRITICAL)
+        try:
+            args = commands.parse_args(argv)
+            args.func(args)
+        finally:
+            logging.disable(quiet)
+            commands.write_dataframe = real
+        if len(captured) != 1 or captured[0][0] != fo or not os.path.exists(fo):
+            raise AssertionError(f"cnvkit.py {argv[0]} did not write exactly one table to the requested output")
+        tab = captured[0][1]
+        _check_written(fo, tab)
+        reread = {"rows": rows, "segs": segs}
+        if op == "genemetrics":
+            if i["female"] is None:
+                g = arr.guess_xx(is_haploid_x_reference=i["hapx"])
+                used = None if g is None else bool(g)
+            else:
+                used = i["female"]
+            return {"rows": _gm_rows(tab), "female": used, "reread": reread}
+        return {"breaks": _break_rows(tab), "reread": reread}
+    finally:
+        shutil.rmtree(d, ignore_errors=True)
+
+
 def run_impl(case):
     from cnvlib import reports
 
     i = case["in"]
+    if i.get("cli"):
+        return _run_cli(case)
     arr = _cna(i["rows"])
     op = case["op"]
     if op == "by_gene":
@@ -364,14 +554,7 @@ def run_impl(case):
         else:
             used = female
         tab = reports.do_genemetrics(arr, segs, i["thr_f"], i["min_probes"], i["skip_low"], i["hapx"], female)
-        rows = []
-        for k in range(len(tab)):
-            r = tab.iloc[k]
-            rows.append([str(r["gene"]), str(r["chromosome"]), int(r["start"]), int(r["end"]), _opt(r["log2"]),
-                         frac(float(r["depth"])), frac(float(r["weight"])), int(r["probes"]),
-                         _opt(r["segment_weight"]) if "segment_weight" in tab.columns else None,
-                         int(r["segment_probes"]) if "segment_probes" in tab.columns else None])
-        return {"rows": rows, "female": used}
+        return {"rows": _gm_rows(tab), "female": used}
     if op == "squash_genes":
         import numpy as np
 
@@ -387,9 +570,7 @@ def run_impl(case):
         return [[str(d["chromosome"].iat[k]), int(d["start"].iat[k]), int(d["end"].iat[k]), str(d["gene"].iat[k]),
                  _opt(d["log2"].iat[k]), _opt(d["depth"].iat[k]), _opt(d["weight"].iat[k])] for k in range(len(d))]
     if op == "breaks":
-        tab = reports.do_breaks(arr, _segarr(i["segs"]), i["min_probes"])
-        return [[str(r.gene), str(r.chromosome), int(r.location), frac(float(r.change)), int(r.probes_left),
-                 int(r.probes_right)] for r in tab.itertuples(index=False)]
+        return _break_rows(reports.do_breaks(arr, _segarr(i["segs"]), i["min_probes"]))
     raise ValueError(op)
 
 
@@ -402,8 +583,13 @@ def _is_err(impl):
 
 
 def to_line(case, impl):
-    inp = {k: v for k, v in case["in"].items() if not k.endswith("_f")}
+    inp = {k: v for k, v in case["in"].items() if not k.endswith("_f") and k not in ("cli", "cli_opts")}
     line = {"op": case["op"], "in": inp}
+    if isinstance(impl, dict) and impl.get("reread"):
+        # a command-line case: the model gets the tables the command read from the files
+        inp["rows"] = impl["reread"]["rows"]
+        if impl["reread"].get("segs") is not None:
+            inp["segs"] = impl["reread"]["segs"]
     if _is_err(impl):
         if case["op"] == "genemetrics":
             line["impl"] = {"error": impl["__error__"]}
@@ -411,6 +597,8 @@ def to_line(case, impl):
     if case["op"] == "genemetrics":
         inp["female"] = impl["female"]
         line["impl"] = impl["rows"]
+    elif isinstance(impl, dict) and "breaks" in impl:
+        line["impl"] = impl["breaks"]
     else:
         line["impl"] = impl
     return line
@@ -458,7 +646,8 @@ def judge(case, impl, resp):
             dis = _cmp_rows("squash", out, impl, (0, 1, 2, 3), (4, 5, 6))
     elif op == "breaks":
         key = lambda r: (r[1], r[2], r[0], r[4], r[5])
-        dis = _cmp_rows("breaks", sorted(out, key=key), sorted(impl, key=key), (0, 1, 2, 4, 5), (3,))
+        got = impl["breaks"] if isinstance(impl, dict) else impl  # a command-line case carries the re-read input too
+        dis = _cmp_rows("breaks", sorted(out, key=key), sorted(got, key=key), (0, 1, 2, 4, 5), (3,))
     if (spec or dis) and "slack" in resp and 0 < Fraction(resp["slack"]) < Fraction(1, 10 ** 9):
         # an inexact float sits within 1e-9 of the threshold (an exact tie, slack 0, is compared exactly:
         # the generator only produces ties from dyadic numbers, on which the float arithmetic is exact)
